@@ -4,7 +4,9 @@ M1 both inputs unchanged (Mod = empty)        M2 the result shares no memory wit
 M3 cpy_file_entry copies every field          M4 every write to the output array stays inside it (charging argument)
 M5 no index E-k with unsigned E unless E >= k is established        M6 on a key match the override's value wins
 M7 a key defined on both sides is not inserted a second time (exactly one visible value per key)
-M8 the scan for an existing key covers the whole result   M9 every merge helper runs for every pair   M10 group-less override-only keys go first"""
+M8 the scan for an existing key covers the whole result   M9 every merge helper runs for every pair   M10 group-less override-only keys go first
+M12 base entries are copied front to back   M13 the section listing filters the group-less marker wherever it stands (= C11.A7)
+M11 an override-only entry is inserted behind the last entry of its section; entries of a new section at the end"""
 import re
 
 from sa.ast import render
@@ -57,6 +59,19 @@ def run(prog, ctx):
     ctx.touch(m)
     if not helpers:
         raise Inconclusive("econf_mergeFiles: no helper receives the output array")
+    # ---- M13 "nothing else appears": the section listing is how the result's sections are observed, and a merged object
+    # registers its sections in copy order (the group-less marker is not necessarily first).  = C11.A7.
+    try:
+        from sa.report import Ctx as _Ctx
+        from rules import C11 as _C11
+        sub = _Ctx(ctx.prop, ctx.tier, prog)
+        _C11.a7(prog, sub)
+        for ob in sub.obs:
+            if "econf_getGroups" in ob.instance:
+                ob.rule = "M13"
+                ctx.obs.append(ob)
+    except Inconclusive as e:
+        ctx.inconclusive("M13", "section listing of a merged object", "", str(e))
     # ---- M1 ----------------------------------------------------------------------------------------
     ma = ModAnalysis(prog, indirect_targets=indirect_table(prog))
     s = ma.summary(MERGE)
@@ -107,6 +122,8 @@ def run(prog, ctx):
         for a in st.ancestors():
             if a.k in ("ForStmt", "WhileStmt", "DoStmt"):
                 cond = render(a.child("cond")) if a.child("cond") is not None else ""
+                if a.k == "ForStmt" and a.child("init") is not None:
+                    cond += " ; " + " ".join(render(x) for x in a.child("init").walk() if x.k == "MemberExpr")
                 mm = re.findall(r"(\w+)->length", cond)
                 role = None
                 for v in mm:
@@ -156,14 +173,19 @@ def run(prog, ctx):
                 v = idx.strip().j["name"]
                 defs = [rhs2 for lhs2, rhs2, st2 in h.assignments() if (lhs2["name"] if isinstance(lhs2, dict) else render(lhs2)) == v]
                 good = bool(defs)
+                cdefs = [render(rhs2) for lhs2, rhs2, st2 in h.assignments() if (lhs2["name"] if isinstance(lhs2, dict) else render(lhs2)) == C]
+
+                def le_counter(x):
+                    # 0, the counter itself, or the value the counter started from (it only grows)
+                    return x.const_value() == 0 or render(x) == C or (len(cdefs) == 1 and render(x) == cdefs[0] and x.strip().k == "DeclRefExpr" and x.strip().j.get("dk") == "param")
                 for d in defs:
                     t = render(d)
                     dd = d.strip()
-                    if d.const_value() == 0 or t == C:
+                    if le_counter(d):
                         continue
-                    if dd.k == "ConditionalOperator" and all(render(x) == C or x.const_value() == 0 for x in (dd.child("then"), dd.child("else"))):
+                    if dd.k == "ConditionalOperator" and all(le_counter(x) for x in (dd.child("then"), dd.child("else"))):
                         continue
-                    mm2 = re.match(r"^(\w+) \+ 1$", t)
+                    mm2 = re.match(r"^(\w+)(?: \+ 1)?$", t)
                     if mm2:
                         lv = [lp2 for lp2 in h.walk() if lp2.k == "ForStmt" and loops.for_shape(lp2).ok and loops.for_shape(lp2).var == mm2.group(1)
                               and loops.for_shape(lp2).cmp == "<" and loops.for_shape(lp2).bound == C]
@@ -310,6 +332,81 @@ def run(prog, ctx):
                 ctx.fail("M10", "%s: group-less keys only the override has are placed first" % h.name, st.where,
                          "no definition of `%s` sends a group-less entry to the front: it is appended behind the last section, and a written copy of the "
                          "result reads it back as a member of that section" % v, key="groupless-front:%s" % h.name)
+    # ---- M12 base entries keep their relative order: the copy loop walks the base front to back -----------------------------
+    for h, st, l, inner in charges.get("base", []):
+        sh12 = loops.index_shape(inner)
+        inst12 = "%s: base entries are copied front to back" % h.name
+        if sh12.ok and sh12.step > 0 and sh12.start_node.const_value() == 0 and sh12.cmp == "<":
+            ctx.ok("M12", inst12, inner.where, sh12.describe())
+        elif sh12.ok and sh12.step < 0:
+            ctx.fail("M12", inst12, inner.where, "the base is walked back to front (%s): base keys do not keep their relative order" % sh12.describe(), key="base-order:%s" % h.name)
+        else:
+            ctx.inconclusive("M12", inst12, inner.where, "loop over the base not recognised (%s)" % sh12.describe())
+    # ---- M11 where an override-only entry is inserted: behind the last entry of its section, a new section at the end ------
+    for h, st, l, inner in charges.get("override", []):
+        idxv = l.children[1].strip()
+        if idxv.k != "DeclRefExpr":
+            continue
+        v = idxv.j["name"]
+        counters = [x for x in inner.child("body").walk() if x.k == "UnaryOperator" and x.j.get("op") == "++" and not any(
+            a2.k in ("ForStmt", "WhileStmt") and a2 is not inner and a2.within(inner) for a2 in x.ancestors())]
+        if len(counters) != 1:
+            continue
+        C = render(counters[0].children[0])
+        scanvars = set()
+        for lp2 in inner.child("body").walk():
+            if lp2.k in ("ForStmt", "WhileStmt"):
+                sh3 = loops.index_shape(lp2)
+                if sh3.ok and sh3.cmp == "<" and sh3.bound == C:
+                    scanvars.add(sh3.var)
+        inst11 = "%s: an entry only the override has goes behind the last entry of its section" % h.name
+        verdict = []
+        for lhs2, rhs2, st2 in h.assignments():
+            if (lhs2["name"] if isinstance(lhs2, dict) else render(lhs2)) != v:
+                continue
+            r2 = rhs2.strip()
+            t = render(r2)
+            if isinstance(lhs2, dict) and rhs2.const_value() == 0:
+                continue                                         # initial value, overwritten or used for the group-less case (M10)
+            mm3 = re.match(r"^([\w$.]+)( \+ 1)?$", t)
+            if mm3 and mm3.group(1) in scanvars:
+                # set while scanning the result: must be under "same section" and point BEHIND the entry
+                cfg = h.cfg
+                okg, cutg = cfg.all_paths_cut(cfg.block_of(st2), lambda lit, b3, i3: lit is not None and lit.kind == "truth" and not lit.pol and lit.node.k == "CallExpr"
+                                              and lit.node.j.get("callee") == "strcmp" and all(".group" in render(a2) for a2 in lit.node.call_args()),
+                                              start=cfg.loop_header(inner))
+                if not (okg and cutg):
+                    verdict.append(("fail", st2, "the insertion index follows entries of OTHER sections (`%s` is not under the same-section test)" % render(st2)))
+                elif mm3.group(2):
+                    verdict.append(("ok", st2, "behind the last entry of the same section (`%s`)" % render(st2)))
+                else:
+                    verdict.append(("fail", st2, "`%s` points AT the last entry of the section, not behind it: the new key is inserted in front of a key of the base, "
+                                    "whose relative position to the section's other keys changes" % render(st2)))
+                continue
+            if r2.k == "ConditionalOperator" and MARKER in render(r2.child("cond")) and "strcmp" in render(r2.child("cond")):
+                cnd = r2.child("cond").strip()
+                named_branch = r2.child("then") if not (cnd.k == "UnaryOperator" and cnd.j.get("op") == "!") else r2.child("else")
+                if render(named_branch) == C:
+                    verdict.append(("ok", st2, "a section the result does not have yet is appended at the end (`%s`)" % C))
+                else:
+                    verdict.append(("fail", st2, "an entry of a section the result does not have yet is inserted at `%s`, not at the end `%s`: sections only the "
+                                    "override has do not come last / in the override's order" % (render(named_branch), C)))
+                continue
+            if t == C:
+                verdict.append(("ok", st2, "appended at the end"))
+                continue
+            if rhs2.const_value() == 0:
+                continue
+            verdict.append(("unknown", st2, "definition `%s` of the insertion index not understood" % render(st2)))
+        if not verdict:
+            ctx.inconclusive("M11", inst11, st.where, "no definition of the insertion index `%s` found" % v)
+        for kind, node, why in verdict:
+            if kind == "ok":
+                ctx.ok("M11", inst11, node.where, why)
+            elif kind == "fail":
+                ctx.fail("M11", inst11, node.where, why, key="insert-position:%s" % h.name)
+            else:
+                ctx.inconclusive("M11", inst11, node.where, why)
     # ---- M9 every helper runs for every pair (also for an empty base or override) ---------------------------------
     mcfg = m.cfg
     succ_rets = [r2 for r2 in m.returns() if query.returned_constant(r2) in ("ECONF_SUCCESS", 0)]
@@ -387,6 +484,59 @@ def run(prog, ctx):
                 ok, why = ma.is_fresh_expr(h, rhs)
                 if roles == {"override"} and ok:
                     ctx.ok("M6", "%s: on a key match the override's value is stored" % h.name, st.where, "fresh copy of %s" % render(rhs)[:60])
+                    # ... and it is the override's FIRST definition (what a lookup in the override returns): the scan ends with the match
+                    scan = None
+                    for a6 in st.ancestors():
+                        if a6.k in ("ForStmt", "WhileStmt", "DoStmt") and a6.child("cond") is not None and any(
+                                re.search(r"(^|[^\w])%s->length" % re.escape(r6), render(a6.child("cond"))) for r6 in roots):
+                            scan = a6
+                            break
+                    if scan is not None:
+                        hcfg = h.cfg
+                        shb = hcfg.loop_header(scan)
+                        again = hcfg.feasible_reach(shb, lambda lit, b6, i6: False, lambda a7: True, start=hcfg.block_of(st), nonempty=True)
+                        # leaving the scan and re-entering it for the next base entry is fine: cut at the enclosing loop's header
+                        outer = [a7 for a7 in scan.ancestors() if a7.k in ("ForStmt", "WhileStmt", "DoStmt")]
+                        if outer:
+                            ohb6 = hcfg.loop_header(outer[0])
+                            succ6 = {(b7, i7): s7 for (b7, i7, s7) in hcfg.edges()}
+                            again = hcfg.feasible_reach(shb, lambda lit, b6, i6: succ6.get((b6, i6)) == ohb6, lambda a7: True, start=hcfg.block_of(st), nonempty=True)
+                        # the scan itself starts at the override's first entry and goes up: the element taken is [scan variable]
+                        shs = loops.index_shape(scan)
+                        elem_idx = None
+                        mi = re.search(r"[\w$.]+->file_entry\[([^\]]+)\]", render(rhs))      # render() expands local aliases
+                        if mi:
+                            nm = mi.group(1)
+                            cand = [x for x in h.walk() if x.k == "DeclRefExpr" and x.j.get("name") == nm]
+                            elem_idx = cand[0] if cand and re.match(r"^[\w$.]+$", nm) else None
+                        order_ok, order_bad = False, None
+                        if elem_idx is not None and shs.ok:
+                            if render(elem_idx) == shs.var and shs.step > 0 and shs.start_node.const_value() == 0:
+                                order_ok = True
+                            elif elem_idx.k == "DeclRefExpr" and elem_idx.j.get("dk") == "local":
+                                ds6 = [(l6, r6, s6) for l6, r6, s6 in h.assignments() if (l6["name"] if isinstance(l6, dict) else render(l6)) == elem_idx.j["name"]]
+                                carried = set(render(l7) for l7, r7, s7, k7 in query.stores(h) if outer and s7.within(outer[0]) and not isinstance(l7, dict))
+                                for l6, r6, s6 in ds6:
+                                    used = set(x.j["name"] for x in r6.walk() if x.k == "DeclRefExpr")
+                                    if s6.within(scan) and (used & carried) - {shs.var}:
+                                        order_bad = (s6, sorted((used & carried) - {shs.var}))
+                            elif shs.step < 0:
+                                order_bad = (scan, ["descending scan"])
+                        if again is None and order_bad is not None:
+                            ctx.fail("M6", "%s: the override's first definition of the key is the one taken" % h.name, order_bad[0].where,
+                                     "the override entry looked at is `%s`, which depends on state carried over from earlier base entries (%s): the scan does not "
+                                     "start at the override's first entry, so of two definitions of a key the later one can be found first" % (
+                                         render(order_bad[0])[:60], ", ".join(order_bad[1])), key="override-last:%s" % h.name)
+                        elif again is None and not order_ok:
+                            ctx.inconclusive("M6", "%s: the override's first definition of the key is the one taken" % h.name, st.where,
+                                             "the scan over the override is not a front-to-back index loop (%s)" % shs.describe())
+                        elif again is None:
+                            ctx.ok("M6", "%s: the override's first definition of the key is the one taken" % h.name, st.where,
+                                   "the override is scanned front to back (%s) and the scan ends with the match" % shs.describe())
+                        else:
+                            ctx.fail("M6", "%s: the override's first definition of the key is the one taken" % h.name, st.where,
+                                     "after a match the scan of the override goes on: when the override defines the key twice the LAST definition ends up in the "
+                                     "result, while a lookup in the override itself returns the first", key="override-last:%s" % h.name)
                 elif roles == {"base"}:
                     ctx.fail("M6", "%s: on a key match the override's value is stored" % h.name, st.where, "the BASE's value is stored: overrides have no effect",
                              key="override-source:%s" % h.name)
